@@ -14,6 +14,7 @@ module = "a fresh process with the same registrations"):
     observation script.
 oracle: clear_config did not raise, and the two observation transcripts are equal.
 """
+import contextlib
 import enum
 import json
 import os
@@ -42,11 +43,15 @@ RULE = ('Hypothesis op lists: history of 1-14 ops (parse_config of 1-4 generated
         'definitions inside one interactive_mode(), over names '
         '{X,a.X,b.a.X,Y,a.Y,c.Y,K,REQUIRED,gin.ext.SEED,gin.X,gin.REQUIRED,x.gin.REQUIRED,invalid}; singleton use through config and through '
         'singleton_value; programmatic binding (+call) of an object whose repr raises once a later '
-        '"break_repr" op has run; gin.constants_from_enum on two long-lived module-level enum classes under '
+        '"break_repr" op has run; gin.constants_from_enum on two long-lived module-level enum '
+        'classes under '
         '3 module names, outside/inside interactive_mode(); parse_config_file of real temp files '
         '(2 paths, optionally including one of 2 other files, optional failing statement in the '
-        'file and/or in the included file); queries; config-string reads), then clear_config(clear_constants in '
-        '{False,True}), then a fixed full snapshot (which also parses every pool path as a correct '
+        'file and/or in the included file); queries; config-string reads), then clear_config for '
+        'clear_constants in {False,True}, spelled clear_config(clear_constants=b) / clear_config(b) '
+        '/ clear_config() and called inside 0-2 nested config_scope blocks (the observation runs '
+        'inside them too, the fresh side enters the same blocks; afterwards the blocks are left and '
+        'current_scope(), calls and the operative config are read), then a fixed full snapshot (which also parses every pool path as a correct '
         'file with a correct include) + 0-8 generated follow-up ops (same op language, outcomes '
         'recorded) + snapshot (which finally generates every pool enum\'s constants under an '
         'unused module name). Plus a bounded sweep of all sequences of <=2 '
@@ -89,7 +94,9 @@ FLOORS = {'nontrivial': (0.15, _S), 'pre:locked': (0.1, _S), 'pre:singleton-cach
           'hist:const-interactive-ok': (0.1, _S), 'hist:failed-op': (0.3, _S),
           'clear:constants-kept': (0.3, _S), 'clear:constants-dropped': (0.3, _S),
           'survivors-kept>=1': (0.1, _S), 'obs:final-operative-readable': (0.6, _S),
-          'hist:const-gin-namespace': (0.05, _S), 'hist:const-value-is-REQUIRED-sentinel': (0.03, _S),
+          'clear:inside-0-scopes': (0.3, _S), 'clear:inside-1-scopes': (0.1, _S),
+          'clear:inside-2-scopes': (0.1, _S), 'clear:call-pos': (0.2, _S), 'clear:call-kw': (0.2, _S),
+          'clear:call-default': (0.2, _S), 'hist:const-gin-namespace': (0.05, _S), 'hist:const-value-is-REQUIRED-sentinel': (0.03, _S),
           'hist:flaky-in-operative-record-then-broken': (0.02, _S), 'hist:enum-ok': (0.08, _S), 'hist:pfile-failed': (0.08, _S), 'hist:pfile-ok': (0.05, _S),
           'hist:pfile-failed-with-faulty-include': (0.02, _S)}
 TECHNIQUE = ('model-free differential over generated operation histories: state after '
@@ -652,6 +659,7 @@ def snapshot(desc, tag, probing):
 
   def strings():
     rec('config_is_locked', gin.config_is_locked)
+    rec('current_scope_str', gin.current_scope_str)
     rec('config_str', lambda: ADDR.sub('0x', gin.config_str()))
     rec('config_str+prov', lambda: ADDR.sub('0x', gin.config_str(show_provenance=True)))
     rec('operative_config_str', lambda: ADDR.sub('0x', gin.operative_config_str()))
@@ -714,7 +722,34 @@ def snapshot(desc, tag, probing):
   return out
 
 
-def observe(case, seeded):
+ENCLOSING = ['s', 'u', 's/t']      # scopes of the `with config_scope(...)` blocks around the clear
+CLEAR_CALLS = ['kw', 'pos', 'default']
+
+
+def clear_scopes(case):
+  return [ENCLOSING[i % len(ENCLOSING)] for i in (case.get('clear_scope') or [])][:2]
+
+
+def call_clear(case):
+  """clear_config spelled as the case says: keyword, positional, or no argument (False only)."""
+  cc = bool(case['clear_constants'])
+  how = case.get('clear_call') or 'kw'
+  if how == 'default' and not cc:
+    return gin.clear_config()
+  if how in ('pos', 'default'):
+    return gin.clear_config(cc)
+  return gin.clear_config(clear_constants=cc)
+
+
+def observe(case, seeded, first=None):
+  """Enters the case's 0-2 nested config_scope blocks, runs `first` (the clear, on the history
+  side; nothing on the fresh side), the observation script inside the blocks, leaves them, and
+  looks at the scope stack and a few calls afterwards."""
+  stack = contextlib.ExitStack()
+  for scope in clear_scopes(case):
+    stack.enter_context(gin.config_scope(scope))
+  if first is not None:
+    first()
   BROKEN[0] = False       # same harness state on both sides when the observation starts
   desc = Describer(seeded)
   out = snapshot(desc, 'A', True)
@@ -722,6 +757,23 @@ def observe(case, seeded):
   for i, op in enumerate(case['follow']):
     out.append(['follow[%d] %s' % (i, op[0]), m.run(op)])
   out.extend(snapshot(desc, 'Z', True))
+
+  def rec(what, fn):
+    try:
+      res = ['ok', desc.d(fn())]
+    except Exception as e:  # pylint: disable=broad-except
+      res = ['exc', exc_name(e)]
+    out.append(['T:' + what, res])
+
+  rec('leave config_scope blocks', stack.close)
+  rec('current_scope', lambda: list(gin.current_scope()))
+  rec('current_scope_str', gin.current_scope_str)
+  for scope in ('', 's'):
+    def call():
+      with gin.config_scope(scope):
+        return W_F()
+    rec('call ' + scoped(scope, 'c20m.f'), call)
+  rec('operative_config_str', lambda: ADDR.sub('0x', gin.operative_config_str()))
   return out, m
 
 
@@ -764,17 +816,22 @@ def history_side(case):
       pass
   survivors = [[n, m.defined[n][0]] for n in m.order]
   clear_constants = bool(case['clear_constants'])
-  clear_exc = None
-  try:
-    res = gin.clear_config(clear_constants=clear_constants)
-    if res is not None:
-      clear_exc = 'returned %r' % (res,)
-  except Exception as e:  # pylint: disable=broad-except
-    clear_exc = '%s: %s' % (type(e).__name__, str(e)[:300])
-  EPOCH[0] = 'obs'
+  cleared = {'exc': None}
+
+  def do_clear():
+    try:
+      res = call_clear(case)
+      if res is not None:
+        cleared['exc'] = 'returned %r' % (res,)
+    except Exception as e:  # pylint: disable=broad-except
+      cleared['exc'] = '%s: %s' % (type(e).__name__, str(e)[:300])
+    EPOCH[0] = 'obs'
   seeded = [] if clear_constants else [m.defined[n][1] for n in m.order
                                        if isinstance(m.defined[n][1], Token)]
-  obs, fm = observe(case, seeded)
+  obs, fm = observe(case, seeded, do_clear)
+  clear_exc = cleared['exc']
+  labels.add('clear:inside-%d-scopes' % len(clear_scopes(case)))
+  labels.add('clear:call-' + (case.get('clear_call') or 'kw'))
   labels.update(l.replace('hist:', 'follow:') for l in fm.labels)
   if 'hist:enum-ok' in m.labels and any(op[0] == 'enum' for op in case['follow']):
     labels.add('enum:generated-before-and-after-clear')
@@ -931,6 +988,8 @@ def strategy():
   return st.fixed_dictionaries({
       'history': st.lists(_op(), min_size=1, max_size=6) | st.lists(_op(), min_size=5, max_size=14),
       'clear_constants': _b,
+      'clear_scope': st.just([]) | st.lists(st.integers(0, 2), min_size=1, max_size=2),
+      'clear_call': st.sampled_from(CLEAR_CALLS),
       'follow': st.lists(_op(), min_size=0, max_size=8),
   })
 
@@ -963,6 +1022,9 @@ def sweep_consts(tier):
     for cc in (False, True):
       cases.append({'history': prefix + [['const', ni, 18, inter]], 'clear_constants': cc,
                     'follow': follow, 'origin': 'sweep'})
+  for n, c in enumerate(cases):
+    c['clear_call'] = CLEAR_CALLS[n % 3]
+    c['clear_scope'] = [n % 3] if n % 4 == 3 else []
   return cases, True
 
 
